@@ -477,8 +477,8 @@ impl Check for C04 {
 
     fn runs(&self, tier: Tier) -> u64 {
         match tier {
-            Tier::Quick => 1_000_000,
-            Tier::Thorough => 60_000_000,
+            Tier::Quick => 5_000_000,
+            Tier::Thorough => 500_000_000,
         }
     }
 
